@@ -6,6 +6,7 @@ import (
 	"encoding/binary"
 	"errors"
 	"io"
+	"math"
 	"slices"
 )
 
@@ -80,6 +81,12 @@ type Field struct {
 }
 
 func NewField(fieldType [2]byte, data []byte) Field {
+	// The size of a field is a 16 bit value on the wire: more data than that cannot be carried by one field, and a
+	// wrapped-around size would desynchronise the client's parser.
+	if len(data) > math.MaxUint16 {
+		data = data[:math.MaxUint16]
+	}
+
 	f := Field{
 		Type: fieldType,
 		Data: make([]byte, len(data)),
